@@ -19,6 +19,7 @@ CLOSED, CONNECTED, DISCONNECTED = 2, 1, 0
 
 
 class Callback:
+    ALWAYS_TRUE = True        # a Python object of this kind is truthy (no __bool__ / __len__)
     def __init__(self, which):
         self.which = which
 
@@ -565,6 +566,7 @@ class RetryAttempt:
     """tenacity's `for attempt in AsyncRetrying(...)` / `with attempt:` protocol (dependency contract):
     the body is run; an Exception inside `with attempt:` ends this attempt and schedules another one after
     wait(attempt_number) seconds (stop_never: for ever); normal completion ends the loop."""
+    ALWAYS_TRUE = True        # a Python object of this kind is truthy (no __bool__ / __len__)
     pass
 
 
@@ -715,6 +717,7 @@ from pyvc.abuf import ABuf, same_bytes, TextOf
 
 class Line:
     """A non-empty line returned by readline() (content opaque)."""
+    ALWAYS_TRUE = True        # a Python object of this kind is truthy (no __bool__ / __len__)
     def __init__(self, n):
         self.n = n
 
